@@ -42,6 +42,23 @@ pub enum Wire {
 	Error(msgs::ErrorMessage),
 	Warning(msgs::WarningMessage),
 	ChannelUpdate(msgs::ChannelUpdate),
+	/// quiescence / splicing / interactive transaction construction messages
+	Stfu(msgs::Stfu),
+	SpliceInit(msgs::SpliceInit),
+	SpliceAck(msgs::SpliceAck),
+	SpliceLocked(msgs::SpliceLocked),
+	TxAddInput(msgs::TxAddInput),
+	TxAddOutput(msgs::TxAddOutput),
+	TxRemoveInput(msgs::TxRemoveInput),
+	TxRemoveOutput(msgs::TxRemoveOutput),
+	TxComplete(msgs::TxComplete),
+	TxSignatures(msgs::TxSignatures),
+	TxInitRbf(msgs::TxInitRbf),
+	TxAckRbf(msgs::TxAckRbf),
+	TxAbort(msgs::TxAbort),
+	/// one `commitment_signed` per funding scope while a splice is pending (the real PeerManager
+	/// frames them with `start_batch` and hands them over in one call)
+	CommitBatch(Vec<msgs::CommitmentSigned>),
 	/// The sender asked its PeerManager to drop the connection.
 	DisconnectMarker,
 }
@@ -68,6 +85,20 @@ impl Wire {
 			Wire::Error(_) => "error",
 			Wire::Warning(_) => "warning",
 			Wire::ChannelUpdate(_) => "channel_update",
+			Wire::Stfu(_) => "stfu",
+			Wire::SpliceInit(_) => "splice_init",
+			Wire::SpliceAck(_) => "splice_ack",
+			Wire::SpliceLocked(_) => "splice_locked",
+			Wire::TxAddInput(_) => "tx_add_input",
+			Wire::TxAddOutput(_) => "tx_add_output",
+			Wire::TxRemoveInput(_) => "tx_remove_input",
+			Wire::TxRemoveOutput(_) => "tx_remove_output",
+			Wire::TxComplete(_) => "tx_complete",
+			Wire::TxSignatures(_) => "tx_signatures",
+			Wire::TxInitRbf(_) => "tx_init_rbf",
+			Wire::TxAckRbf(_) => "tx_ack_rbf",
+			Wire::TxAbort(_) => "tx_abort",
+			Wire::CommitBatch(_) => "commitment_signed_batch",
 			Wire::DisconnectMarker => "disconnect",
 		}
 	}
@@ -88,6 +119,20 @@ impl Wire {
 			Wire::ClosingSigned(m) => m.channel_id,
 			Wire::Error(m) => m.channel_id,
 			Wire::Warning(m) => m.channel_id,
+			Wire::Stfu(m) => m.channel_id,
+			Wire::SpliceInit(m) => m.channel_id,
+			Wire::SpliceAck(m) => m.channel_id,
+			Wire::SpliceLocked(m) => m.channel_id,
+			Wire::TxAddInput(m) => m.channel_id,
+			Wire::TxAddOutput(m) => m.channel_id,
+			Wire::TxRemoveInput(m) => m.channel_id,
+			Wire::TxRemoveOutput(m) => m.channel_id,
+			Wire::TxComplete(m) => m.channel_id,
+			Wire::TxSignatures(m) => m.channel_id,
+			Wire::TxInitRbf(m) => m.channel_id,
+			Wire::TxAckRbf(m) => m.channel_id,
+			Wire::TxAbort(m) => m.channel_id,
+			Wire::CommitBatch(v) => v[0].channel_id,
 			_ => return None,
 		})
 	}
@@ -387,10 +432,27 @@ impl World {
 				if let Some(m) = updates.update_fee {
 					self.push_wire(from, &node_id, Wire::Fee(m));
 				}
-				for m in updates.commitment_signed {
-					self.push_wire(from, &node_id, Wire::Commit(m));
+				if updates.commitment_signed.len() > 1 {
+					self.push_wire(from, &node_id, Wire::CommitBatch(updates.commitment_signed));
+				} else {
+					for m in updates.commitment_signed {
+						self.push_wire(from, &node_id, Wire::Commit(m));
+					}
 				}
 			},
+			MessageSendEvent::SendStfu { node_id, msg } => self.push_wire(from, &node_id, Wire::Stfu(msg)),
+			MessageSendEvent::SendSpliceInit { node_id, msg } => self.push_wire(from, &node_id, Wire::SpliceInit(msg)),
+			MessageSendEvent::SendSpliceAck { node_id, msg } => self.push_wire(from, &node_id, Wire::SpliceAck(msg)),
+			MessageSendEvent::SendSpliceLocked { node_id, msg } => self.push_wire(from, &node_id, Wire::SpliceLocked(msg)),
+			MessageSendEvent::SendTxAddInput { node_id, msg } => self.push_wire(from, &node_id, Wire::TxAddInput(msg)),
+			MessageSendEvent::SendTxAddOutput { node_id, msg } => self.push_wire(from, &node_id, Wire::TxAddOutput(msg)),
+			MessageSendEvent::SendTxRemoveInput { node_id, msg } => self.push_wire(from, &node_id, Wire::TxRemoveInput(msg)),
+			MessageSendEvent::SendTxRemoveOutput { node_id, msg } => self.push_wire(from, &node_id, Wire::TxRemoveOutput(msg)),
+			MessageSendEvent::SendTxComplete { node_id, msg } => self.push_wire(from, &node_id, Wire::TxComplete(msg)),
+			MessageSendEvent::SendTxSignatures { node_id, msg } => self.push_wire(from, &node_id, Wire::TxSignatures(msg)),
+			MessageSendEvent::SendTxInitRbf { node_id, msg } => self.push_wire(from, &node_id, Wire::TxInitRbf(msg)),
+			MessageSendEvent::SendTxAckRbf { node_id, msg } => self.push_wire(from, &node_id, Wire::TxAckRbf(msg)),
+			MessageSendEvent::SendTxAbort { node_id, msg } => self.push_wire(from, &node_id, Wire::TxAbort(msg)),
 			MessageSendEvent::SendRevokeAndACK { node_id, msg } => self.push_wire(from, &node_id, Wire::Raa(msg)),
 			MessageSendEvent::SendClosingSigned { node_id, msg } => self.push_wire(from, &node_id, Wire::ClosingSigned(msg)),
 			MessageSendEvent::SendShutdown { node_id, msg } => self.push_wire(from, &node_id, Wire::Shutdown(msg)),
@@ -474,6 +536,20 @@ impl World {
 				Wire::Error(m) => cm.handle_error(fid, m),
 				Wire::Warning(_) => {},
 				Wire::ChannelUpdate(m) => cm.handle_channel_update(fid, m),
+				Wire::Stfu(m) => cm.handle_stfu(fid, m),
+				Wire::SpliceInit(m) => cm.handle_splice_init(fid, m),
+				Wire::SpliceAck(m) => cm.handle_splice_ack(fid, m),
+				Wire::SpliceLocked(m) => cm.handle_splice_locked(fid, m),
+				Wire::TxAddInput(m) => cm.handle_tx_add_input(fid, m),
+				Wire::TxAddOutput(m) => cm.handle_tx_add_output(fid, m),
+				Wire::TxRemoveInput(m) => cm.handle_tx_remove_input(fid, m),
+				Wire::TxRemoveOutput(m) => cm.handle_tx_remove_output(fid, m),
+				Wire::TxComplete(m) => cm.handle_tx_complete(fid, m),
+				Wire::TxSignatures(m) => cm.handle_tx_signatures(fid, m),
+				Wire::TxInitRbf(m) => cm.handle_tx_init_rbf(fid, m),
+				Wire::TxAckRbf(m) => cm.handle_tx_ack_rbf(fid, m),
+				Wire::TxAbort(m) => cm.handle_tx_abort(fid, m),
+				Wire::CommitBatch(v) => cm.handle_commitment_signed_batch(fid, v[0].channel_id, v.clone()),
 				Wire::DisconnectMarker => {},
 			}
 		}
@@ -561,6 +637,13 @@ impl World {
 							self.obs.push(Obs::Api { node: n, what: "forward_intercepted_htlc".into(), ok: r.is_ok(), detail: format!("{:?}", r) });
 						}
 					}
+				},
+				Event::FundingTransactionReadyForSigning { channel_id, counterparty_node_id, unsigned_transaction, .. } => {
+					// splice (interactively built) funding transaction: the wallet signs its own inputs
+					let r = self.nodes[n].wallet.sign_tx(unsigned_transaction).map_err(|_| ()).and_then(|tx| {
+						self.nodes[n].cm.funding_transaction_signed(&channel_id, &counterparty_node_id, tx).map_err(|_| ())
+					});
+					self.obs.push(Obs::Api { node: n, what: "funding_transaction_signed".into(), ok: r.is_ok(), detail: format!("{:?}", r) });
 				},
 				Event::PaymentClaimed { payment_hash, .. } => {
 					// ground truth: the recipient released the preimage
@@ -903,6 +986,31 @@ impl World {
 				}
 			}
 		}
+	}
+
+	/// Node `n` initiates a splice on `cid` with `peer`: `delta_sat` > 0 adds value from the node's wallet
+	/// (it must own a confirmed UTXO), < 0 withdraws to the node's wallet script. Only the user calls are
+	/// made here; quiescence, negotiation and signing run through the ordinary message / event flow.
+	pub fn splice(&mut self, n: usize, peer: usize, cid: &ChannelId, delta_sat: i64) -> Result<(), String> {
+		use bitcoin::FeeRate;
+		use lightning::util::wallet_utils::{WalletSourceSync, WalletSync};
+		let pid = self.nodes[peer].id;
+		let template = self.nodes[n].cm.splice_channel(cid, &pid).map_err(|e| format!("{:?}", e))?;
+		let floor = FeeRate::from_sat_per_kwu(253);
+		let feerate = template.min_rbf_feerate().unwrap_or(floor);
+		let contribution = if delta_sat >= 0 {
+			let wallet = WalletSync::new(self.nodes[n].wallet.clone(), self.nodes[n].logger.clone());
+			template.splice_in_sync(Amount::from_sat(delta_sat as u64), feerate, FeeRate::MAX, &wallet).map_err(|e| format!("{:?}", e))?
+		} else {
+			let script = self.nodes[n].wallet.get_change_script().unwrap();
+			template
+				.splice_out(vec![TxOut { value: Amount::from_sat((-delta_sat) as u64), script_pubkey: script }], feerate, FeeRate::MAX)
+				.map_err(|e| format!("{:?}", e))?
+		};
+		let r = self.nodes[n].cm.funding_contributed(cid, &pid, contribution, None).map_err(|e| format!("{:?}", e));
+		self.obs.push(Obs::Api { node: n, what: "funding_contributed".into(), ok: r.is_ok(), detail: format!("{:?}", r) });
+		self.pump();
+		r
 	}
 
 	pub fn mine_empty(&mut self, k: u32) {
